@@ -124,6 +124,7 @@ func mkVal(v valT, colOid int) any {
 
 // ---- recording ----
 type recorder struct {
+	reg      *registry
 	conn     *memConn
 	events   []string
 	cfg      *cfgT
@@ -166,6 +167,27 @@ func (r *recorder) checkKept(when string) {
 type registry struct {
 	mu   sync.Mutex
 	recs map[string]*recorder
+	// the parameter map handed to GlobalParameters and a private copy of it taken at that moment
+	gparams     wire.Parameters
+	gparamsCopy map[string]string
+}
+
+// the user-supplied global parameter map is never modified by serving connections
+func (g *registry) paramsChanged() string {
+	g.mu.Lock()
+	defer g.mu.Unlock()
+	if g.gparamsCopy == nil {
+		return ""
+	}
+	if len(g.gparams) != len(g.gparamsCopy) {
+		return fmt.Sprintf("it has %d entries, %d were configured", len(g.gparams), len(g.gparamsCopy))
+	}
+	for k, v := range g.gparamsCopy {
+		if cur, ok := g.gparams[wire.ParameterStatus(k)]; !ok || cur != v {
+			return fmt.Sprintf("key %q: now %q (present %v), configured %q", k, cur, ok, v)
+		}
+	}
+	return ""
 }
 
 func (g *registry) add(r *recorder) {
@@ -419,9 +441,14 @@ func buildServer(c *cfgT, reg *registry, extra ...wire.OptionFn) (*wire.Server, 
 	opts := []wire.OptionFn{wire.Logger(quiet), wire.MessageBufferSize(c.limit), wire.Version(string(c.version))}
 	if c.params != nil {
 		m := wire.Parameters{}
+		cp := map[string]string{}
 		for _, kv := range c.params {
 			m[wire.ParameterStatus(kv[0])] = string(kv[1])
+			cp[string(kv[0])] = string(kv[1])
 		}
+		reg.mu.Lock()
+		reg.gparams, reg.gparamsCopy = m, cp
+		reg.mu.Unlock()
 		opts = append(opts, wire.GlobalParameters(m))
 	}
 	if c.auth != "none" {
@@ -512,7 +539,7 @@ func newSession(c *caseT, reg *registry) (*memConn, *recorder) {
 	conn := newMemConn()
 	conn.addr = fmt.Sprintf("client-%d", atomic.AddInt64(&connSeq, 1))
 	conn.sslFirst = isSSLRequest(c.raw)
-	rec := &recorder{conn: conn, cfg: &c.cfg}
+	rec := &recorder{conn: conn, cfg: &c.cfg, reg: reg}
 	rec.cparams, rec.cparamOK = startupParams(c.raw, c.cfg.tls)
 	reg.add(rec)
 	return conn, rec
@@ -578,6 +605,11 @@ func serveAsync(srv *wire.Server, conn *memConn, o *obsT) {
 
 func collect(conn *memConn, rec *recorder, o *obsT) {
 	rec.checkKept("at the end of the connection")
+	if rec.reg != nil {
+		if d := rec.reg.paramsChanged(); d != "" {
+			rec.bad("the configured global parameter map was modified while serving (%s)", d)
+		}
+	}
 	// the context of the last command must be cancelled once the connection is over
 	if rec.lastCtx != nil && rec.lastCtx.Err() == nil {
 		rec.bad("context of the last command is still alive after the connection ended")
